@@ -241,6 +241,14 @@ def run(ctx: Ctx) -> None:
     ast_oracle(ctx, rendertie.SPECIAL_DOCS, "special")
     ast_oracle(ctx, gen_docs(ctx, ctx.scale(500, 8000)), "generated-clean")
     ast_oracle(ctx, gen_docs(ctx, ctx.scale(40, 2000), hazards=True, clean=False), "generated-hazards")
+    # code blocks whose fence the renderer itself chooses (indented code holding fence-like runs at 0–4 columns of extra
+    # indentation, in seven containers) and spans laid out over several source lines: the families of props/c04.py, read here
+    # for block structure; their own PRNG stream, so the streams above stay what they were
+    import random
+    from props import c04
+    frng = random.Random(f"{ctx.prop}:families:{ctx.seed}")
+    ast_oracle(ctx, c04.indented_code_docs(frng, ctx.scale(60, 1500)), "indented-code")
+    ast_oracle(ctx, c04.split_span_docs(frng, ctx.scale(40, 1000)), "split-span")
     ctx.assume("Marko's parse of the INPUT is taken as the document the author wrote (the parser itself is third party)")
     ctx.rule("structured generator (blocks × inlines × layouts) × widths {0,12,20,40,88} × both modes; canonical-AST equality; "
              "hazard stream attributed counterfactually to KNOWN_FINDINGS")
